@@ -413,3 +413,567 @@ func c18ErrorOnly(p *Prog, r *Run, caller, lookup *ssa.Function) {
 		r.Check(okE, "error:"+name, p.Pos(cv.Pos()), "the error of the lookup is never replaced by nil", name+": "+whyE)
 	}
 }
+
+// ---------------------------------------------------------------------------
+// Registrations driven by a local table
+//
+// `tbl := []struct{t; f; n}{{T1, f1, "n1"}, ...}; for _, e := range tbl { af.Register(e.t, e.f, e.n) }` performs the
+// calls Register(T1, f1, "n1"), ... - one per element, in index order. The code below establishes exactly that, or
+// gives a reason why it cannot:
+//
+//	c18TableOf        the table is a local array whose memory is written only by stores at constant indices (the
+//	                  literal), each (index, field) at most once, outside every loop, and is otherwise only read (its
+//	                  address / a slice of it never leaves the function, is not re-sliced, merged or passed on): the
+//	                  contents are the stored values for as long as the function runs;
+//	c18FullIteration  the loop runs its body once for every index 0..N-1 and for nothing else (counter from 0 or the
+//	                  range form from -1, step 1, bound N or len(table), the header test is the only exit, not nested);
+//	c18TableCall      the call executes exactly once per iteration and each argument is a constant or a field of the
+//	                  element at this iteration's index, read directly or through a local copy of the element that is
+//	                  written once, before the read, in the same iteration.
+
+type c18Table struct {
+	alloc  *ssa.Alloc
+	n      int
+	elem   []map[int]ssa.Value // index -> field -> the value stored by the literal
+	at     []token.Pos         // index -> position of the element
+	writes []ssa.Instruction   // every store into the table's memory
+}
+
+type c18Tables struct {
+	byAlloc map[*ssa.Alloc]*c18Table
+	why     map[*ssa.Alloc]string
+	loops   []*Loop
+}
+
+func newC18Tables(fn *ssa.Function) *c18Tables {
+	return &c18Tables{byAlloc: map[*ssa.Alloc]*c18Table{}, why: map[*ssa.Alloc]string{}, loops: Loops(fn)}
+}
+
+func c18Precedes(a, b ssa.Instruction) bool {
+	if a.Block() == b.Block() {
+		return instrIndex(a) < instrIndex(b)
+	}
+	return a.Block().Dominates(b.Block())
+}
+
+// c18LoadsOnly: every use of the address is a load.
+func c18LoadsOnly(addr ssa.Value) bool {
+	refs := addr.Referrers()
+	if refs == nil {
+		return false
+	}
+	for _, ref := range *refs {
+		switch x := ref.(type) {
+		case *ssa.DebugRef:
+		case *ssa.UnOp:
+			if x.Op != token.MUL || x.X != addr {
+				return false
+			}
+		default:
+			return false
+		}
+	}
+	return true
+}
+
+// c18ReadOnlyElem: the address of an element is only read: loaded as a whole or field by field.
+func c18ReadOnlyElem(ia *ssa.IndexAddr) bool {
+	for _, ref := range *ia.Referrers() {
+		switch x := ref.(type) {
+		case *ssa.DebugRef:
+		case *ssa.UnOp:
+			if x.Op != token.MUL || x.X != ssa.Value(ia) {
+				return false
+			}
+		case *ssa.FieldAddr:
+			if x.X != ssa.Value(ia) || !c18LoadsOnly(x) {
+				return false
+			}
+		default:
+			return false
+		}
+	}
+	return true
+}
+
+// c18LiteralFields reads the value `*tmp` of a struct literal built in a temporary: tmp is a local whose fields are
+// stored (each at most once) in the block of the load and before it, and which is used for nothing else.
+func c18LiteralFields(val ssa.Value) (map[int]ssa.Value, bool) {
+	ld, ok := val.(*ssa.UnOp)
+	if !ok || ld.Op != token.MUL {
+		return nil, false
+	}
+	tmp, ok := ld.X.(*ssa.Alloc)
+	if !ok || tmp.Referrers() == nil {
+		return nil, false
+	}
+	out := map[int]ssa.Value{}
+	for _, ref := range *tmp.Referrers() {
+		switch x := ref.(type) {
+		case *ssa.DebugRef:
+		case *ssa.UnOp:
+			if x != ld {
+				return nil, false
+			}
+		case *ssa.FieldAddr:
+			if x.X != ssa.Value(tmp) || x.Referrers() == nil {
+				return nil, false
+			}
+			for _, r2 := range *x.Referrers() {
+				if _, isDbg := r2.(*ssa.DebugRef); isDbg {
+					continue
+				}
+				st, isSt := r2.(*ssa.Store)
+				if !isSt || st.Addr != ssa.Value(x) || st.Block() != ld.Block() || !c18Precedes(st, ld) {
+					return nil, false
+				}
+				if _, dup := out[x.Field]; dup {
+					return nil, false
+				}
+				out[x.Field] = st.Val
+			}
+		default:
+			return nil, false
+		}
+	}
+	return out, true
+}
+
+func (ts *c18Tables) inLoop(b *ssa.BasicBlock) bool { return InnermostLoop(ts.loops, b) != nil }
+
+// ofAlloc analyses a local array once.
+func (ts *c18Tables) ofAlloc(a *ssa.Alloc) (*c18Table, string) {
+	if t, ok := ts.byAlloc[a]; ok {
+		return t, ts.why[a]
+	}
+	t, why := ts.analyse(a)
+	ts.byAlloc[a], ts.why[a] = t, why
+	return t, why
+}
+
+func (ts *c18Tables) analyse(a *ssa.Alloc) (*c18Table, string) {
+	pt, ok := a.Type().Underlying().(*types.Pointer)
+	if !ok {
+		return nil, "not a local array"
+	}
+	arr, ok := pt.Elem().Underlying().(*types.Array)
+	if !ok {
+		return nil, "not a local array"
+	}
+	if _, ok := arr.Elem().Underlying().(*types.Struct); !ok {
+		return nil, "the elements of the table are not structs"
+	}
+	if a.Referrers() == nil || arr.Len() > 1<<16 {
+		return nil, "not a local array"
+	}
+	t := &c18Table{alloc: a, n: int(arr.Len())}
+	t.elem = make([]map[int]ssa.Value, t.n)
+	t.at = make([]token.Pos, t.n)
+	put := func(idx ssa.Value, field int, v ssa.Value, st *ssa.Store) string {
+		k, isK := constInt(idx)
+		if !isK || k < 0 || int(k) >= t.n {
+			return "the table is written at an index that is not a constant"
+		}
+		if ts.inLoop(st.Block()) {
+			return "the table is written inside a loop"
+		}
+		if t.elem[k] == nil {
+			t.elem[k] = map[int]ssa.Value{}
+		}
+		if _, dup := t.elem[k][field]; dup {
+			return fmt.Sprintf("element %d of the table is written more than once", k)
+		}
+		t.elem[k][field] = v
+		if !t.at[k].IsValid() {
+			t.at[k] = st.Pos()
+		}
+		return ""
+	}
+	nFields := arr.Elem().Underlying().(*types.Struct).NumFields()
+	for _, ref := range *a.Referrers() {
+		switch x := ref.(type) {
+		case *ssa.DebugRef:
+		case *ssa.UnOp: // the array value (a snapshot, judged where it is used)
+			if x.Op != token.MUL || x.X != ssa.Value(a) {
+				return nil, "the table's address is used in an unexpected way"
+			}
+		case *ssa.Slice:
+			if x.X != ssa.Value(a) || x.Max != nil {
+				return nil, "the table is re-sliced"
+			}
+			if x.Low != nil {
+				if k, isK := constInt(x.Low); !isK || k != 0 {
+					return nil, "the table is re-sliced"
+				}
+			}
+			if x.High != nil {
+				if k, isK := constInt(x.High); !isK || int(k) != t.n {
+					return nil, "the table is re-sliced"
+				}
+			}
+			if x.Referrers() == nil {
+				return nil, "the table's slice is used in an unexpected way"
+			}
+			for _, r2 := range *x.Referrers() {
+				switch y := r2.(type) {
+				case *ssa.DebugRef:
+				case *ssa.Call:
+					bi, isB := y.Call.Value.(*ssa.Builtin)
+					if !isB || (bi.Name() != "len" && bi.Name() != "cap") {
+						return nil, "the table is passed to a call"
+					}
+				case *ssa.IndexAddr:
+					if y.X != ssa.Value(x) || !c18ReadOnlyElem(y) {
+						return nil, "an element of the table is written or its address taken after the literal"
+					}
+				default:
+					return nil, "the table's slice is stored, merged, re-sliced or passed on"
+				}
+			}
+		case *ssa.IndexAddr:
+			if x.X != ssa.Value(a) || x.Referrers() == nil {
+				return nil, "the table's address is used in an unexpected way"
+			}
+			if c18ReadOnlyElem(x) {
+				continue
+			}
+			for _, r2 := range *x.Referrers() {
+				switch y := r2.(type) {
+				case *ssa.DebugRef:
+				case *ssa.Store:
+					if y.Addr != ssa.Value(x) {
+						return nil, "the address of a table element is stored"
+					}
+					fields, isLit := c18LiteralFields(y.Val)
+					if !isLit {
+						return nil, "a table element is written with something other than a struct literal"
+					}
+					for f := 0; f < nFields; f++ {
+						v, has := fields[f]
+						if !has {
+							continue // zero value: the field stays unknown to the rule
+						}
+						if why := put(x.Index, f, v, y); why != "" {
+							return nil, why
+						}
+					}
+					t.writes = append(t.writes, y)
+				case *ssa.FieldAddr: // the literal written in place
+					if y.X != ssa.Value(x) || y.Referrers() == nil {
+						return nil, "the address of a table element is used in an unexpected way"
+					}
+					for _, r3 := range *y.Referrers() {
+						if _, isDbg := r3.(*ssa.DebugRef); isDbg {
+							continue
+						}
+						st, isSt := r3.(*ssa.Store)
+						if !isSt || st.Addr != ssa.Value(y) {
+							return nil, "a field of a table element is read and written through the same address"
+						}
+						if why := put(x.Index, y.Field, st.Val, st); why != "" {
+							return nil, why
+						}
+						t.writes = append(t.writes, st)
+					}
+				default:
+					return nil, "the address of a table element is used in an unexpected way"
+				}
+			}
+		default:
+			return nil, "the table's address is stored or passed on"
+		}
+	}
+	return t, ""
+}
+
+// of resolves a value that is indexed (slice of the local array, the array's address, or a snapshot of the array value).
+func (ts *c18Tables) of(v ssa.Value) (*c18Table, string) {
+	switch x := v.(type) {
+	case *ssa.Slice:
+		if a, ok := x.X.(*ssa.Alloc); ok {
+			return ts.ofAlloc(a)
+		}
+	case *ssa.Alloc:
+		return ts.ofAlloc(x)
+	case *ssa.UnOp:
+		if a, ok := x.X.(*ssa.Alloc); ok && x.Op == token.MUL {
+			t, why := ts.ofAlloc(a)
+			if t == nil {
+				return nil, why
+			}
+			for _, w := range t.writes {
+				if !c18Precedes(w, x) {
+					return nil, "the table is copied before it is completely written"
+				}
+			}
+			return t, ""
+		}
+	}
+	return nil, "the registration's arguments do not come from a local table (array or slice literal)"
+}
+
+// c18FullIteration: the body of l runs once with idx = 0, 1, ..., t.n-1, in this order, and l is left only by the
+// header test failing at idx = t.n. The table is completely written before the loop starts.
+func (ts *c18Tables) fullIteration(l *Loop, t *c18Table) (idx ssa.Value, why string) {
+	h := l.Header
+	iff, ok := h.Instrs[len(h.Instrs)-1].(*ssa.If)
+	if !ok || len(h.Succs) != 2 || !l.Blocks[h.Succs[0]] || l.Blocks[h.Succs[1]] {
+		return nil, "the loop is not controlled by a test in its header"
+	}
+	cond, ok := iff.Cond.(*ssa.BinOp)
+	if !ok {
+		return nil, "the loop test is not a comparison"
+	}
+	var x, y ssa.Value
+	switch cond.Op {
+	case token.LSS:
+		x, y = cond.X, cond.Y
+	case token.GTR:
+		x, y = cond.Y, cond.X
+	default:
+		return nil, "the loop test is not counter < length"
+	}
+	// bound
+	okB := false
+	if k, isK := constInt(y); isK {
+		if _, isC := y.(*ssa.Const); isC && int(k) == t.n && isIntType(y.Type()) {
+			okB = true
+		}
+	} else if c, isCall := y.(*ssa.Call); isCall {
+		if bi, isB := c.Call.Value.(*ssa.Builtin); isB && bi.Name() == "len" && len(c.Call.Args) == 1 {
+			if sl, isSl := c.Call.Args[0].(*ssa.Slice); isSl {
+				if t2, _ := ts.of(sl); t2 == t {
+					okB = true // len(table[:]) == N at any time: the slice value is never changed
+				}
+			}
+		}
+	}
+	if !okB {
+		return nil, "the loop bound is not the length of the table"
+	}
+	// counter
+	isOne := func(v ssa.Value) bool {
+		_, isC := v.(*ssa.Const)
+		k, isK := constInt(v)
+		return isC && isK && k == 1 && isIntType(v.Type())
+	}
+	stepOf := func(v ssa.Value) (*ssa.Phi, bool) { // v == phi + 1
+		add, ok := v.(*ssa.BinOp)
+		if !ok || add.Op != token.ADD {
+			return nil, false
+		}
+		if ph, ok := add.X.(*ssa.Phi); ok && isOne(add.Y) {
+			return ph, true
+		}
+		if ph, ok := add.Y.(*ssa.Phi); ok && isOne(add.X) {
+			return ph, true
+		}
+		return nil, false
+	}
+	counter := func(ph *ssa.Phi, start int64, next func(e ssa.Value) bool) bool {
+		if ph.Block() != h || !isIntType(ph.Type()) {
+			return false
+		}
+		for i, e := range ph.Edges {
+			if l.Blocks[h.Preds[i]] {
+				if !next(e) {
+					return false
+				}
+			} else {
+				_, isC := e.(*ssa.Const)
+				k, isK := constInt(e)
+				if !isC || !isK || k != start {
+					return false
+				}
+			}
+		}
+		return true
+	}
+	if ph, ok := stepOf(x); ok && x.(*ssa.BinOp).Block() == h {
+		// range form: i = phi{-1, i} + 1, tested and used as i
+		if !counter(ph, -1, func(e ssa.Value) bool { return e == x }) {
+			return nil, "the loop counter does not run from 0 in steps of 1"
+		}
+		idx = x
+	} else if ph, ok := x.(*ssa.Phi); ok {
+		if !counter(ph, 0, func(e ssa.Value) bool { p2, ok := stepOf(e); return ok && p2 == ph }) {
+			return nil, "the loop counter does not run from 0 in steps of 1"
+		}
+		idx = ph
+	} else {
+		return nil, "the loop test is not counter < length"
+	}
+	for b := range l.Blocks {
+		for _, s := range b.Succs {
+			if !l.Blocks[s] && b != h {
+				return nil, "the loop over the table can be left before the last element"
+			}
+		}
+	}
+	for _, l2 := range ts.loops {
+		if l2 != l && l2.Blocks[h] {
+			return nil, "the loop over the table is nested in another loop"
+		}
+	}
+	for _, w := range t.writes {
+		if !w.Block().Dominates(h) || l.Blocks[w.Block()] {
+			return nil, "the table is not completely written before the loop starts"
+		}
+	}
+	return idx, ""
+}
+
+func isIntType(t types.Type) bool {
+	b, ok := t.Underlying().(*types.Basic)
+	return ok && b.Info()&types.IsInteger != 0
+}
+
+// c18ElemRef: a value that is field `field` of element `idx` of a table.
+type c18ElemRef struct {
+	tbl   *c18Table
+	idx   ssa.Value
+	field int
+}
+
+// elemValue: v is the whole element tbl[idx].
+func (ts *c18Tables) elemValue(v ssa.Value) (*c18Table, ssa.Value, string) {
+	switch x := v.(type) {
+	case *ssa.UnOp:
+		if ia, ok := x.X.(*ssa.IndexAddr); ok && x.Op == token.MUL {
+			t, why := ts.of(ia.X)
+			return t, ia.Index, why
+		}
+	case *ssa.Index:
+		t, why := ts.of(x.X)
+		return t, x.Index, why
+	}
+	return nil, nil, "the registration's arguments do not come from a local table (array or slice literal)"
+}
+
+// elemField resolves an argument of a call in loop l.
+func (ts *c18Tables) elemField(v ssa.Value, l *Loop) (c18ElemRef, string) {
+	none := "the registration's arguments do not come from a local table (array or slice literal)"
+	switch x := v.(type) {
+	case *ssa.Field:
+		t, idx, why := ts.elemValue(x.X)
+		if t == nil {
+			return c18ElemRef{}, why
+		}
+		return c18ElemRef{t, idx, x.Field}, ""
+	case *ssa.UnOp:
+		fa, ok := x.X.(*ssa.FieldAddr)
+		if !ok || x.Op != token.MUL {
+			return c18ElemRef{}, none
+		}
+		switch base := fa.X.(type) {
+		case *ssa.IndexAddr:
+			t, why := ts.of(base.X)
+			if t == nil {
+				return c18ElemRef{}, why
+			}
+			return c18ElemRef{t, base.Index, fa.Field}, ""
+		case *ssa.Alloc:
+			// a local copy of the element (`for _, e := range tbl`, `e := tbl[i]`): written once, by a copy of the
+			// element made in this loop, before the read; otherwise only read field by field
+			if base.Referrers() == nil {
+				return c18ElemRef{}, none
+			}
+			var copies []*ssa.Store
+			for _, ref := range *base.Referrers() {
+				switch y := ref.(type) {
+				case *ssa.DebugRef:
+				case *ssa.Store:
+					if y.Addr != ssa.Value(base) {
+						return c18ElemRef{}, "the address of the element copy is stored"
+					}
+					copies = append(copies, y)
+				case *ssa.FieldAddr:
+					if y.X != ssa.Value(base) || !c18LoadsOnly(y) {
+						return c18ElemRef{}, "the element copy is modified or its address taken"
+					}
+				default:
+					return c18ElemRef{}, "the element copy is used as a whole or its address taken"
+				}
+			}
+			if len(copies) != 1 {
+				return c18ElemRef{}, fmt.Sprintf("the element copy is assigned %d times", len(copies))
+			}
+			st := copies[0]
+			if !l.Blocks[st.Block()] || InnermostLoop(ts.loops, st.Block()) != l || !c18Precedes(st, x) {
+				return c18ElemRef{}, "the element copy is not made in the iteration that reads it"
+			}
+			t, idx, why := ts.elemValue(st.Val)
+			if t == nil {
+				return c18ElemRef{}, why
+			}
+			return c18ElemRef{t, idx, fa.Field}, ""
+		}
+	}
+	return c18ElemRef{}, none
+}
+
+// c18TableCall expands a call made in a loop over a local table into the argument lists of the calls it performs:
+// one per element of the table; args[k] of call j is the constant argument k or the field of element j it reads.
+func (ts *c18Tables) tableCall(fn *ssa.Function, c ssa.CallInstruction, args []ssa.Value) (calls [][]ssa.Value, at []token.Pos, why string) {
+	cb := c.Block()
+	l := InnermostLoop(ts.loops, cb)
+	if l == nil {
+		return nil, nil, "an argument is not a constant and the call is not made in a loop over a table"
+	}
+	for _, lt := range l.Latch {
+		if lt != cb && !cb.Dominates(lt) {
+			return nil, nil, "the call is not made in every iteration of the loop"
+		}
+	}
+	for _, b := range fn.Blocks {
+		if _, isRet := b.Instrs[len(b.Instrs)-1].(*ssa.Return); isRet && !l.Header.Dominates(b) {
+			return nil, nil, "the loop over the table is not on every path to the function's return"
+		}
+	}
+	var tbl *c18Table
+	var idx ssa.Value
+	refs := make([]*c18ElemRef, len(args))
+	for k, a := range args {
+		if _, isC := a.(*ssa.Const); isC {
+			continue
+		}
+		ref, why := ts.elemField(a, l)
+		if ref.tbl == nil {
+			return nil, nil, why
+		}
+		if tbl == nil {
+			tbl, idx = ref.tbl, ref.idx
+		} else if tbl != ref.tbl || idx != ref.idx {
+			return nil, nil, "the arguments are taken from different tables or elements"
+		}
+		r := ref
+		refs[k] = &r
+	}
+	if tbl == nil {
+		return nil, nil, "no argument is taken from a table"
+	}
+	it, why := ts.fullIteration(l, tbl)
+	if it == nil {
+		return nil, nil, why
+	}
+	if it != idx {
+		return nil, nil, "the element read is not the one at the loop's counter"
+	}
+	for j := 0; j < tbl.n; j++ {
+		row := make([]ssa.Value, len(args))
+		for k, a := range args {
+			if refs[k] == nil {
+				row[k] = a
+				continue
+			}
+			v, has := tbl.elem[j][refs[k].field]
+			if !has {
+				return nil, nil, fmt.Sprintf("element %d of the table does not set the field passed as argument %d", j, k+1)
+			}
+			row[k] = v
+		}
+		calls = append(calls, row)
+		at = append(at, tbl.at[j])
+	}
+	return calls, at, ""
+}
